@@ -190,6 +190,7 @@ def build(tier, seed):
             for head in itertools.product(ss_family(fam, L), repeat=hl):
                 cases.append({'kind': 'ss', 'm': m, 'L': L, 'family': fam, 'head': [list(h) for h in head], 'menu': menu})
     return {
+        'rule_more': 'rotated scan with two anonymous measures and the returned arrays edited in place by the caller; time_match / same_start with the master assigned after construction, AccSignal and mixed clusters aligned again after every member was edited; values on a level 2^23 with steps 1/128',
         'cases': cases,
         'rule': "kind 'rot': all pairs (ns, we) of words over {-1,0,2} of equal length 1..%d x angles %s (+180 partner) and "
                 "compute_rotated offsets %s x points %s x measures %s (s_a: points 3 only), then with angle_off_ns and points omitted "
